@@ -45,7 +45,7 @@ func (c04) Classes() []sim.Class {
 func (c04) Describe() sim.Description {
 	return sim.Description{
 		Level: "exploration",
-		Rule: "tape-generated graphs of 2-4 instances wired by imports of functions, one memory, one table and five globals (mutable i32/i64/f32/f64, immutable i32), each object either defined by the instance or imported from ANY earlier instance (chains through re-exports included); every import is drawn compatible or incompatible in exactly one respect (signature, value type, mutability, memory min/max, table min/max/element type, missing export, missing module). " +
+		Rule: "class type-identity: three to five modules compiled one after the other with overlapping and duplicated type sections over a pool of eight structural types, one function per type in a shared table, every slot called with every type (a call succeeds exactly when the structural types are equal); class twins: several instances of one compiled module around one table, plus a collector module referencing the same-named import of two of them; otherwise: tape-generated graphs of 2-4 instances wired by imports of functions, one memory, one table and five globals (mutable i32/i64/f32/f64, immutable i32), each object either defined by the instance or imported from ANY earlier instance (chains through re-exports included); every import is drawn compatible or incompatible in exactly one respect (signature, value type, mutability, memory min/max, table min/max/element type, missing export, missing module). " +
 			"Then a history of 10-40 steps: writers and readers of every shared object from every side, memory.grow from any instance and through the host API, table.set/grow/call_indirect, host API global access, and further instantiations after state changed whose active data/element segment offsets and global initialisers read the imported immutable global, with out-of-bounds segments (earlier segments persist) and trapping start functions. " +
 			"Oracle: single-copy model (one value per global object, one byte array and size per memory, one slot array per table); after EVERY step every instance's own getters (guest code) and the host API agree with the model; instantiation succeeds iff the model's compatibility rule says so, and after a failed instantiation the name is free and all earlier instances still match. " +
 			"Class graph-moving-allocator: a custom MemoryAllocator over harness-owned mmap regions that always moves the buffer on grow and turns the old region PROT_NONE (a stale cached base pointer faults at once; worker death = violation) and, per tape, fails allocation. Non-trivial: an object shared by >= 2 instances was written from one side and read from another after a grow or a later instantiation; distinct = distinct (graph, step kinds) sequences",
